@@ -73,7 +73,6 @@ MUTANTS = [
     ("get-terms-with-vars-aliases", IOC, "                terms.append(t.copy())\n        return type(self)(terms)", "                terms.append(t)\n        return type(self)(terms)", ["C13"], []),
     ("check-clause-no-raise", SER, "            raise ContractFormatError(f'Keyword \"{kw}\" not found in {clause_id}')", "            ContractFormatError(f'Keyword \"{kw}\" not found in {clause_id}')", ["C14"], []),
     ("file-asserts", FIO, '            raise ContractFormatError(f"Each entry of the file {file_name} should be a dictionary")', "            assert False", ["C14"], []),
-    ("solve-for-variables-assert", POLY, '        if len(context.terms) != len(vars_to_solve):\n            raise ValueError("The number of equations does not match the number of variables to solve for")', "        assert len(context.terms) == len(vars_to_solve)", ["C14"], []),
     ("division-by-zero-escapes", GRAM, "        elif operand == 0:\n            raise pp.ParseFatalException(string, location, \"Division by zero in a constant expression\")\n", "", ["C14", "C09"], []),
     ("compose-wrong-context", IOC, "other.a | other.g, assumptions_forbidden_vars, simplify=True, tactics_order=tactics_order", "other.a, assumptions_forbidden_vars, simplify=True, tactics_order=tactics_order", [], []),
     ("tactic2-polarity", POLY, "polarity = 1\n        if refine:\n            polarity = -1\n        objective = [polarity * term.get_coefficient(var) for var in variables]", "polarity = -1\n        if refine:\n            polarity = 1\n        objective = [polarity * term.get_coefficient(var) for var in variables]", ["C04"], []),
